@@ -65,6 +65,16 @@ Theorem shutdown_shepherd_flag_test_refuted :
 Proof. exact shep_flag_test_refuted_gen. Qed.
 Print Assumptions shutdown_shepherd_flag_test_refuted.
 
+(* the proviso of the theorems above is necessary: a qthread_disable_worker that lands AFTER the finalizer's test of that worker's
+   flag (1 x 2: enqueue, test, early stage, then the disable) leaves the worker spinning and the join waiting for ever -- the machine
+   therefore assumes that no disable call runs concurrently with qthread_finalize *)
+Theorem shutdown_concurrent_disable_hangs :
+  exists s1, run false (init_state 1 2 2 [] []) [AFin; AFin; AFin] = Some s1 /\
+             let s := set_worker_flag s1 0 false in
+             stuck_at_join s = Some (0, 1) /\ (forall a s', step false s a = Some s' -> s' = s).
+Proof. exact concurrent_disable_hangs_gen. Qed.
+Print Assumptions shutdown_concurrent_disable_hangs.
+
 (* start-up: the creation loop makes S*W - 1 worker threads, worker (i,j) active iff j*S + i + 1 <= hw_par, the workers
    scheduling work (main + active threads) number hw_par = what qthread_num_workers() reports (nworkers_active := hw_par) *)
 Theorem startup_counts_exact : forall S_ W_ hw, 1 <= S_ -> 1 <= W_ -> 1 <= hw <= S_ * W_ ->
